@@ -59,3 +59,81 @@ theorem mod_hf_mod (i : Nat) : (i % g.hugeFrames) % 64 = i % 64 := by
 
 end GeomOk
 end LLFree
+
+namespace LLFree
+namespace GeomOk
+variable {g : Geom} (ok : GeomOk g)
+include ok
+
+/-- the table index of the huge frame containing `frame` is its global huge index -/
+theorem hugeIdx_eq (frame : Nat) :
+    (frame / g.treeFrames) * g.treeHuge + (frame / g.hugeFrames) % g.treeHuge = frame / g.hugeFrames := by
+  have : frame / g.treeFrames = frame / g.hugeFrames / g.treeHuge := by
+    rw [Nat.div_div_eq_div_mul, ok.tf_eq, Nat.mul_comm]
+  rw [this]
+  exact Nat.div_add_mod' _ _
+
+theorem ceil_hf_le (frames : Nat) :
+    (frames + g.hugeFrames - 1) / g.hugeFrames ≤ (frames + g.treeFrames - 1) / g.treeFrames * g.treeHuge := by
+  have hth := ok.th_pos
+  have hhf := ok.hf_pos
+  -- let T = ceil(frames / TF); frames ≤ T * TF = T * TH * HF, hence ceil(frames / HF) ≤ T * TH
+  have hT : frames ≤ (frames + g.treeFrames - 1) / g.treeFrames * g.treeFrames := by
+    have := Nat.lt_mul_div_succ (frames + g.treeFrames - 1) ok.tf_pos
+    rw [Nat.mul_comm, Nat.add_mul, Nat.one_mul] at this
+    omega
+  have : (frames + g.hugeFrames - 1) / g.hugeFrames < (frames + g.treeFrames - 1) / g.treeFrames * g.treeHuge + 1 := by
+    apply (Nat.div_lt_iff_lt_mul hhf).2
+    rw [Nat.add_mul, Nat.one_mul, Nat.mul_assoc, ← ok.tf_eq]
+    omega
+  omega
+
+end GeomOk
+end LLFree
+
+namespace LLFree
+namespace GeomOk
+variable {g : Geom} (ok : GeomOk g)
+include ok
+
+/-- `TREE_ORDER = HUGE_ORDER + log2 TREE_HUGE` -/
+theorem treeOrder_eq : ∃ k, g.treeHuge = 2 ^ k ∧ g.treeOrder = k + g.hugeOrder := by
+  obtain ⟨k, hk⟩ := ok.th
+  refine ⟨k, hk, ?_⟩
+  show Nat.log2 (g.treeHuge * 2 ^ g.hugeOrder) = _
+  rw [hk, ← Nat.pow_add, Nat.log2_two_pow]
+
+/-- an aligned block of huge order `order ≤ TREE_ORDER` covers `2^(order - HO)` consecutive
+    table entries of one tree -/
+theorem huge_block_fits (frame order : Nat) (ho : g.hugeOrder ≤ order) (hto : order ≤ g.treeOrder)
+    (hal : frame % 2 ^ order = 0) :
+    (frame / g.hugeFrames) % g.treeHuge + 2 ^ (order - g.hugeOrder) ≤ g.treeHuge ∧
+    (frame / g.hugeFrames) % 2 ^ (order - g.hugeOrder) = 0 := by
+  obtain ⟨k, hk, hto'⟩ := ok.treeOrder_eq
+  have hn : 2 ^ order = 2 ^ (order - g.hugeOrder) * g.hugeFrames := by
+    show _ = _ * 2 ^ g.hugeOrder
+    rw [← Nat.pow_add]; congr 1; omega
+  -- frame / HF is a multiple of n = 2^(order - HO)
+  have hdvd : 2 ^ (order - g.hugeOrder) ∣ frame / g.hugeFrames := by
+    obtain ⟨q, hq⟩ := Nat.dvd_of_mod_eq_zero hal
+    refine ⟨q, ?_⟩
+    rw [hq, hn, Nat.mul_assoc, Nat.mul_comm g.hugeFrames q, ← Nat.mul_assoc, Nat.mul_div_cancel _ ok.hf_pos]
+  have hTH : g.treeHuge = 2 ^ (k - (order - g.hugeOrder)) * 2 ^ (order - g.hugeOrder) := by
+    rw [hk, ← Nat.pow_add]; congr 1; omega
+  have hdvdTH : 2 ^ (order - g.hugeOrder) ∣ g.treeHuge := ⟨2 ^ (k - (order - g.hugeOrder)), by rw [Nat.mul_comm]; exact hTH⟩
+  have hdvdmod : 2 ^ (order - g.hugeOrder) ∣ (frame / g.hugeFrames) % g.treeHuge := (Nat.dvd_mod_iff hdvdTH).2 hdvd
+  refine ⟨?_, Nat.mod_eq_zero_of_dvd hdvd⟩
+  obtain ⟨q, hq⟩ := hdvdmod
+  have hlt : (frame / g.hugeFrames) % g.treeHuge < g.treeHuge := Nat.mod_lt _ ok.th_pos
+  rw [hq] at hlt ⊢
+  rw [hTH] at hlt ⊢
+  have hq' : q < 2 ^ (k - (order - g.hugeOrder)) := by
+    rw [Nat.mul_comm] at hlt
+    exact Nat.lt_of_mul_lt_mul_right hlt
+  have : (q + 1) * 2 ^ (order - g.hugeOrder) ≤ 2 ^ (k - (order - g.hugeOrder)) * 2 ^ (order - g.hugeOrder) :=
+    Nat.mul_le_mul_right _ hq'
+  rw [Nat.add_mul, Nat.one_mul, Nat.mul_comm q] at this
+  exact this
+
+end GeomOk
+end LLFree
